@@ -54,12 +54,12 @@ CHECKS = {
             "(partial): a Projection past a Deduplication (finding F04) is excluded by hypothesis; joins, and transfer=True "
             "COMBINED with back-tracking towards a SQL preferred engine from an iteration-engine target, are validated by correspondence + oracle. The proof attempt itself exposed three genuine defects, now repaired. " + CORR,
             "", "DESIGN.md 5/C03"),
-    "C04": (PR, "Lean 4 theorem commute_sound_partial over all 49 operation-class pairs + machine-checked counterexample for the one unsound pair + correspondence",
+    "C04": (PR, "Lean 4 theorems commute_sound_partial (all 49 operation-class pairs) and partial_join_commute_sound (a join past every operation class) + machine-checked counterexample for the one unsound pair + correspondence",
             "Machine-checked for every pair of unary operations with arbitrary parameters, every target column set and "
             "row list: a reported move (full or partial) yields the same rows in the same order and both reported "
             "operations are well-formed; no move => the existing operation is handed back. The single exception, "
             "Projection over Deduplication (finding F04), is excluded from the theorem and proved unsound by a concrete "
-            "witness that the check replays on the implementation. PartialJoin.commute is validated, not proved. " + CORR,
+            "witness that the check replays on the implementation. PartialJoin.commute (partial_join_commute_sound): for every existing operation, fixed relation and target, a reported move of a join is complete, both operations are well-formed where they land, columns and rows are those of joining at the root - as a multiset always, as a list (order included) unless the existing operation is a Sort; a join defines no row order, and partial_join_past_sort_is_not_order_exact shows list equality is false there in the nested-loop reading. " + CORR,
             "", "DESIGN.md 5/C04"),
     "C05": (PR, "Lean 4 theorems (slice/sort/selection/projection merge, simplify, _finish_apply) + correspondence",
             "Machine-checked: Slice.then total and exact for all bounds, Sort.then = sequential stable sorts, "
